@@ -323,6 +323,7 @@ class BuiltinModelLoaderGen(ModelLoaderGen):
                     has_skipped_params = True
                     continue
                 if self._is_packed_field(field):
+                    has_skipped_params = True  # it is passed via `**packed_fields`, following params must be keywords
                     continue
 
                 value = state.v_field(field)
